@@ -233,6 +233,7 @@ for name, f in list(MON.items()) + list(DYA.items()):
         out.append('//@   requires val(b) != 0')
     out.append('//@   ensures deref(c.ptr) == %s' % insto(f))
     out.append('//@   ensures isa($S, result) && as($S, result) == c')
+    out.append('//@   ensures forall k int :: k != off(c.ptr) ==> row($F, base(c.ptr))[k] == old(row($F, base(c.ptr))[k])')
     out.append('//@   modifies []$F@{c.ptr}')
     out.append('')
 out.append('//@ end')
